@@ -259,6 +259,7 @@ type tField struct {
 	ID     uint16
 	Offset uintptr
 	Type   *tType
+	Name   string // Go field name, for the required-field error
 
 	Spec    defs.Requiredness
 	Default unsafe.Pointer
@@ -300,6 +301,7 @@ func (f *tField) EncodedSize() int {
 
 func (f *tField) fromDefsField(x defs.Field) {
 	f.ID = x.ID
+	f.Name = x.Name
 	f.Offset = uintptr(x.F)
 	f.Type = newTType(x.Type)
 	f.Spec = x.Spec
